@@ -1,6 +1,6 @@
 // GENERATED on every run by tools/kani_extract.py -- function text cut verbatim from /repo/src
 
-// lib.rs:1746
+// lib.rs:1750
 pub fn codepoint_len(b: u8) -> usize {
     match b {
         b if b < 0x80 => 1,
@@ -10,7 +10,7 @@ pub fn codepoint_len(b: u8) -> usize {
     }
 }
 
-// lib.rs:1552
+// lib.rs:1556
 pub fn is_special(c: char) -> bool {
     match c {
         '\\' | '.' | '+' | '*' | '?' | '(' | ')' | '|' | '[' | ']' | '{' | '}' | '^' | '$'
@@ -19,22 +19,22 @@ pub fn is_special(c: char) -> bool {
     }
 }
 
-// parse.rs:934
+// parse.rs:930
 pub fn is_digit(b: u8) -> bool {
     b'0' <= b && b <= b'9'
 }
 
-// parse.rs:938
+// parse.rs:934
 pub fn is_hex_digit(b: u8) -> bool {
     is_digit(b) || (b'a' <= (b | 32) && (b | 32) <= b'f')
 }
 
-// parse.rs:930
+// parse.rs:926
 pub fn is_id_char(c: char) -> bool {
     c.is_alphanumeric() || c == '_'
 }
 
-// lib.rs:1758
+// lib.rs:1762
 pub fn next_utf8(text: &str, i: usize) -> usize {
     let b = match text.as_bytes().get(i) {
         None => return i + 1,
@@ -43,7 +43,7 @@ pub fn next_utf8(text: &str, i: usize) -> usize {
     i + codepoint_len(b)
 }
 
-// lib.rs:1734
+// lib.rs:1738
 pub fn prev_codepoint_ix(s: &str, mut ix: usize) -> usize {
     let bytes = s.as_bytes();
     loop {
